@@ -278,7 +278,7 @@ func (v *Verifier) markCallWrites(ms *loopModSet, call *ast.CallExpr) {
 					for i := 0; i < stt.NumFields(); i++ {
 						if stt.Field(i).Name() == it.Name {
 							if at, isArr := stt.Field(i).Type().Underlying().(*types.Array); isArr {
-								ms.heapKind[v.sliceHeapName(v.sortOf(at.Elem()))] = true
+								ms.heapKind[v.sliceHeapNameT(at.Elem())] = true
 							} else {
 								ms.heapKind[v.heapName("F", structTypeName(st), it.Name)] = true
 							}
@@ -304,17 +304,17 @@ func (v *Verifier) markBaseWrite(ms *loopModSet, e ast.Expr) {
 	t := v.typeOf(e)
 	switch u := t.Underlying().(type) {
 	case *types.Slice:
-		name := v.sliceHeapName(v.sortOf(u.Elem()))
+		name := v.sliceHeapNameT(u.Elem())
 		ms.bases[name] = append(ms.bases[name], e)
 	case *types.Pointer:
 		switch pu := u.Elem().Underlying().(type) {
 		case *types.Array:
-			name := v.sliceHeapName(v.sortOf(pu.Elem()))
+			name := v.sliceHeapNameT(pu.Elem())
 			ms.bases[name] = append(ms.bases[name], e)
 		case *types.Struct:
 			for i := 0; i < pu.NumFields(); i++ {
 				if at, isArr := pu.Field(i).Type().Underlying().(*types.Array); isArr {
-					ms.heapKind[v.sliceHeapName(v.sortOf(at.Elem()))] = true
+					ms.heapKind[v.sliceHeapNameT(at.Elem())] = true
 				} else {
 					ms.heapKind[v.heapName("F", structTypeName(u.Elem()), pu.Field(i).Name())] = true
 				}
